@@ -70,6 +70,9 @@ pub enum Ev {
 pub struct Cfg {
     pub cache: usize,
     pub max_err: usize,
+    /// receiver with enable_fdt_expiration_check = false (memory bounds and releases do not depend on it)
+    #[serde(default)]
+    pub no_exp_check: bool,
 }
 
 const E: usize = 100;
@@ -147,7 +150,7 @@ impl Rx {
             object_timeout: Some(Duration::from_secs(OBJ_TIMEOUT)),
             object_max_cache_size: Some(c.cache),
             object_receive_once: true,
-            enable_fdt_expiration_check: true,
+            enable_fdt_expiration_check: !c.no_exp_check,
         };
         let open_sessions = Rc::new(std::cell::Cell::new(0i64));
         let mut rx = MultiReceiver::new(Rc::new(NullBuilder), Some(cfg), false);
@@ -424,14 +427,16 @@ pub fn run(thorough: bool) -> i32 {
         let mut v = Vec::new();
         for cache in [3 * (E + 40), 64 * 1024] {
             for max_err in [0usize, 1, 2] {
-                v.push(Cfg { cache, max_err });
+                v.push(Cfg { cache, max_err, no_exp_check: false });
             }
         }
+        v.push(Cfg { cache: 3 * (E + 40), max_err: 1, no_exp_check: true });
+        v.push(Cfg { cache: 64 * 1024, max_err: 0, no_exp_check: true });
         v
     };
     // (A) all sequences to the depth bound: one work item per (configuration, length, first two events);
     // the remaining events are enumerated lazily inside the worker (16^6 histories do not fit a Vec)
-    let acfgs: Vec<usize> = if thorough { (0..cfgs.len()).collect() } else { vec![0, 4] };
+    let acfgs: Vec<usize> = if thorough { (0..cfgs.len()).collect() } else { vec![0, 4, 6] };
     let na = alphabet.len();
     let mut witems: Vec<(usize, usize, usize)> = Vec::new(); // (cfg, length, prefix code)
     for ci in &acfgs {
